@@ -250,6 +250,27 @@ void run_width(const Case &c, pbt::Ctx &ctx) {
             if (!matched) {
                 ctx.fail("svar-shape", "{svar:} output does not decompose into phrase|var|raw: " + jm::show(out) + " for " + jm::show(s));
             }
+            // a super variable whose list of sub tags is empty (a comma, then nothing that is a tag): the phrase is still printed, escaped,
+            // and its placeholders stay as they are
+            {
+                static const char *shapes[] = {"[{svar:p,}]", "[{svar:p, }]", "[{svar:p, text}]", "[{svar:p, {var:}}]"};
+                Units              o2       = render<Char_T>(ascii(shapes[(s.size() + c.delivery) % 4]), v);
+                Units              seg2;
+                if (!cut(o2, ascii("["), ascii("]"), seg2)) {
+                    ctx.fail("surrounding-text-changed", "{svar:} without sub tags lost its surroundings: " + jm::show(o2));
+                }
+                if (!on ? (seg2 != p2) : (decode(seg2) != decode(p2))) {
+                    // (when the tag is not taken as a super variable at all its source is echoed: that is the other documented outcome)
+                    Units echoed = ascii(shapes[(s.size() + c.delivery) % 4]);
+                    echoed.erase(echoed.begin());
+                    echoed.pop_back();
+                    if (decode(seg2) != decode(echoed)) {
+                        ctx.fail("svar-phrase-lost", "{svar:} with an empty sub-tag list printed " + jm::show(seg2) + " for the phrase " + jm::show(p2));
+                    }
+                } else {
+                    check_escaped(p2, seg2, "{svar:} phrase without sub tags", ctx, on);
+                }
+            }
             break;
         }
         default: { // unresolved {var:NAME}: the tag source is echoed, escaped; NAME contains specials but no braces
